@@ -115,7 +115,14 @@ func validateTraces(r *core.Run, module, cfg, entry string, ops []core.Op, obs [
 		r.Machinery("no trace events recorded for %s (hooks missing?)", module)
 		return
 	}
-	const chunk = 50000
+	// chunks validated by parallel TLC processes: at most 50k events each, small enough to occupy 12 processes
+	chunk := len(lines)/12 + 1
+	if chunk < 4000 {
+		chunk = 4000
+	}
+	if chunk > 50000 {
+		chunk = 50000
+	}
 	type part struct{ lo, hi int }
 	var parts []part
 	for lo := 0; lo < len(lines); {
@@ -132,7 +139,7 @@ func validateTraces(r *core.Run, module, cfg, entry string, ops []core.Op, obs [
 	}
 	var mu sync.Mutex
 	var wg sync.WaitGroup
-	sem := make(chan struct{}, 6)
+	sem := make(chan struct{}, 12)
 	for _, p := range parts {
 		wg.Add(1)
 		sem <- struct{}{}
